@@ -977,7 +977,9 @@ func SplitMrt(data []byte, atEOF bool) (advance int, token []byte, err error) {
 	if atEOF && len(data) == 0 {
 		return 0, nil, nil
 	}
-	if cap(data) < MRT_COMMON_HEADER_LEN { // read more
+	// len, not cap: a bufio.Scanner buffer always has spare capacity, and
+	// slicing into it parses stale bytes from earlier reads as the header.
+	if len(data) < MRT_COMMON_HEADER_LEN { // read more
 		return 0, nil, nil
 	}
 	hdr, errh := ParseHeader(data[:MRT_COMMON_HEADER_LEN])
